@@ -331,7 +331,7 @@ def gen_cfg(rng):
 
 def leg_b(ctx, dirs):
     rng = ctx.rng
-    nsc = ctx.pick(250, 5000)
+    nsc = ctx.pick(250, 4000)
     seen = {}
     nreq = 0
     default = {'ao': {'star': True, 'set': []}, 'ac': {'star': False, 'set': []}, 'eh': []}
